@@ -8,7 +8,8 @@ import eqlgen as G
 from core import Case, CheckBroken
 
 PID = "C01"
-LEAN_MODULES = ["KrroodVerif.Props.C01", "KrroodVerif.Props.C01Union", "KrroodVerif.Props.C01Typed"]
+LEAN_MODULES = ["KrroodVerif.Props.C01", "KrroodVerif.Props.C01Union", "KrroodVerif.Props.C01Typed",
+                "KrroodVerif.Props.C01Quant"]
 THEOREMS = [
     "KrroodVerif.Eql.C01_cover",
     "KrroodVerif.Eql.C01_sound_complete_partial",
@@ -34,7 +35,36 @@ THEOREMS = [
     "KrroodVerif.Eql.C01_cex_orOfExists",
     "KrroodVerif.Eql.C01_cex_emptyDomain",
     "KrroodVerif.Eql.C01_cex_flattenNot",
+    # quantified conditions (Props/C01Quant.lean; lemmas Lemmas/EqlQuant.lean)
+    "KrroodVerif.Eql.C01_quant_sound_complete_partial",
+    "KrroodVerif.Eql.C01_quant_tree_sound_complete_partial",
+    "KrroodVerif.Eql.C01_exists_sound_complete_partial",
+    "KrroodVerif.Eql.C01_forall_sound_complete_partial",
+    "KrroodVerif.Eql.C01_not_exists_sound_complete_partial",
+    "KrroodVerif.Eql.C01_not_forall_sound_complete_partial",
+    "KrroodVerif.Eql.C01_forall_empty_error",
+    "KrroodVerif.Eql.C01_exists_no_keyError",
+    "KrroodVerif.Eql.C01_quantProved_sound_complete",  # the decidable predicate the DRIVER evaluates per case (frag=ql)
+    "KrroodVerif.Eql.ql_qinv",
+    "KrroodVerif.Eql.qt_qinv2",
+    "KrroodVerif.Eql.ql_qt",
+    "KrroodVerif.Eql.exists_qinv",
+    "KrroodVerif.Eql.forAll_qinv",
+    "KrroodVerif.Eql.closed_eval",
+    "KrroodVerif.Eql.lclosed_eval",
+    "KrroodVerif.Eql.eval_fext",
+    "KrroodVerif.Eql.satE_congr",
+    "KrroodVerif.Eql.C01_quant_need_E1",
+    "KrroodVerif.Eql.C01_quant_need_E2",
+    "KrroodVerif.Eql.C01_quant_need_A1",
+    "KrroodVerif.Eql.C01_quant_need_A2",
+    "KrroodVerif.Eql.C01_quant_need_shape",
+    "KrroodVerif.Eql.C01_quant_need_scope",
 ]
+# second tie (translator): the table of construction-time rewrites regenerated from the current source equals the one
+# `build` transcribes and is admissible — the same two obligations as C02 (harness/translate/c02_translate.py)
+from props.c02 import extra_obligations  # noqa: E402,F401
+
 MODEL_FUNCTION = "Eql.evalQuery / Eql.eval / Eql.build (Model/Eql.lean)"
 TRUSTED = [
     "Lean 4.33 kernel; axioms of each theorem listed under coverage.theorems",
@@ -46,7 +76,9 @@ ASSUMPTIONS = [
     "quantified variables are not used outside their quantifier (no shadowing), quantifiers are not nested",
     "user attribute access has no side effects; object truthiness is the default (always true)",
 ]
-RULE = ("corpus, then random condition trees (depth<=3, 1-3 variables + dedicated quantifier variables, int and "
+RULE = ("corpus, then the quantifier family (and_(l1, .., Q), Q = exists / for_all / not_ of them over a quantifier-free "
+        "body, aimed at and just outside the fragment of Props/C01Quant.lean; the Lean predicate Eql.quantProved decides "
+        "membership in the driver, where F-C01-5/7/11 are then no excuse), then random condition trees (depth<=3, 1-3 variables + dedicated quantifier variables, int and "
         "object domains of 0-4 elements incl. falsy values (no longer excused: F-C01-3 is repaired, a falsy bound value "
         "must behave like any other operand), empty domains and value-equal distinct objects; or_ with "
         "all variable-set relations; 1-4 selected expressions); non-trivial = the specified answer set is neither "
@@ -57,8 +89,134 @@ def budget(tier: str) -> int:
     return 8000 if tier == "quick" else 120000
 
 
+def _conj(rng, parts):
+    """and_(a, b, c) of the library is and_(and_(a, b), c); also the right-nested form"""
+    if rng.random() < 0.6:
+        c = parts[0]
+        for p in parts[1:]:
+            c = ("and", c, p)
+        return c
+    c = parts[-1]
+    for p in reversed(parts[:-1]):
+        c = ("and", p, c)
+    return c
+
+
+def gen_quant_family(rng):
+    """`and_(l1, .., Q)` with quantifier-free `li` and ONE quantifier Q last: exists / for_all / not_(exists) /
+    not_(for_all) over a quantifier-free condition — aimed at the fragment of Props/C01Quant.lean (every variable of an
+    `exists` body bound by the conjuncts to the left, the quantified variable in every result cell; `for_all` bodies whose
+    true cells bind every node), with a minority just outside it. The DRIVER decides membership (`frag=ql`,
+    `Eql.quantProved`); `extra_coverage` counts it."""
+    nv = rng.choice([1, 2, 2, 3])
+    vs = ["x", "y", "z"][:nv]
+    qn = "u"
+    kinds, objs, doms = G.gen_world(rng, vs + [qn], int_p=0.35)
+    G.EXT["index_ok"] = False
+    if rng.random() < 0.85:  # the theorems need non-empty domains for the free variables (F-C01-9) and for `for_all` (F-C01-6)
+        for n in vs + [qn]:
+            if not doms[n]:
+                if kinds[n] == "obj" and objs:
+                    doms[n] = [("obj", rng.randrange(len(objs)))]
+                elif kinds[n] == "int":
+                    doms[n] = [rng.randrange(0, 3)]
+    allv = vs + [qn]
+    atom_q = lambda: G.gen_atom(rng, allv, kinds, 0, must=qn)
+    def body_exists():
+        k = rng.random()
+        a = atom_q()
+        if k < 0.45:
+            return a
+        if k < 0.7:
+            return ("and", a, G.gen_cond(rng, allv, kinds, 1, [], 0, False, True, True))
+        if k < 0.85:
+            return ("not", a)
+        if k < 0.93:
+            return ("or", a, atom_q())
+        return ("and", G.gen_atom(rng, vs, kinds, 0, must=rng.choice(vs)), a)  # F-C01-7 shape: just outside
+    def body_forall():
+        k = rng.random()
+        a = atom_q()
+        if k < 0.4:
+            return a
+        if k < 0.65:
+            return ("and", a, G.gen_atom(rng, allv, kinds, 0, must=rng.choice(allv)))
+        if k < 0.8:
+            return ("not", a)
+        if k < 0.86:
+            return ("and", a, ("not", G.gen_atom(rng, allv, kinds, 0, must=rng.choice(allv))))
+        if k < 0.93:
+            # a negated conjunction whose second conjunct only holds `u` and a literal: a true cell leaves that literal
+            # node unbound, no variable (inside the fragment)
+            return ("not", ("and", G.gen_atom(rng, allv, kinds, 0, must=rng.choice(allv)), ("cmp", rng.choice(list(G.OPS)),
+                    (("var", qn) if kinds[qn] == "int" else ("attr", ("var", qn), "a")), ("lit", rng.randrange(0, 3)))))
+        return ("not", ("and", a, G.gen_atom(rng, allv, kinds, 0, must=rng.choice(vs))))  # F-C01-11 shape: just outside
+    kind = rng.choice(["exists", "forall", "not-exists", "not-forall"])
+    if kind == "exists":
+        body = body_exists(); Q = ("exists", qn, body)
+    elif kind == "forall":
+        body = body_forall(); Q = ("forall", qn, body)
+    elif kind == "not-exists":  # built as for_all(u, not body)
+        body = rng.choice([atom_q, lambda: ("or", atom_q(), atom_q()), lambda: ("not", atom_q())])()
+        Q = ("not", ("exists", qn, body))
+    else:  # built as exists(u, not body)
+        body = rng.choice([atom_q, lambda: ("not", atom_q()), lambda: ("and", atom_q(), G.gen_atom(rng, allv, kinds, 0, must=rng.choice(allv)))])()
+        Q = ("not", ("forall", qn, body))
+    free = [v for v in G.c_free(Q)]
+    needs_bound = kind in ("exists", "not-forall")
+    parts = []
+    for v in free:
+        if needs_bound and rng.random() < 0.92 or rng.random() < 0.4:
+            parts.append(G.gen_atom(rng, vs, kinds, 0, must=v))
+    if rng.random() < 0.3:
+        parts.append(G.gen_cond(rng, vs, kinds, rng.randrange(1, 3), [], 0, False, rng.random() < 0.5, True))
+    rng.shuffle(parts)
+    k = rng.random()
+    if k < 0.7:
+        cond = _conj(rng, parts + [Q])                      # the quantifier LAST (chain fragment)
+    elif k < 0.9:
+        # and-TREE: a closed `exists` first, conjuncts and the quantifier after it (`v` is a second quantified variable
+        # with the domain and kind of `u`)
+        doms["v"], kinds["v"] = list(doms[qn]), kinds[qn]
+        first = ("exists", "v", G.gen_atom(rng, ["v"], kinds, 0, must="v"))
+        cond = _conj(rng, [first] + parts + [Q])
+        kind = "tree-" + kind
+    else:
+        # the quantifier in the MIDDLE: conjuncts after it (outside the chain fragment, inside the tree fragment when they
+        # do not use `u`)
+        tail = [G.gen_atom(rng, vs, kinds, 0, must=rng.choice(vs))]
+        cond = _conj(rng, parts + [Q] + tail)
+        kind = "mid-" + kind
+    sel = [("var", v) for v in rng.sample(vs, rng.randrange(1, nv + 1))]
+    return {"sel": sel, "cond": cond, "objs": objs, "doms": doms, "kinds": kinds}, kind
+
+
+_generated_lines = []
+
+
+def extra_coverage():
+    """how many of this run's generated cases the Lean predicate `Eql.quantProved` places inside the proved quantifier
+    fragment (there the driver does not offer F-C01-5/7/11 as an excuse), by quantifier shape"""
+    from core import Driver
+    if not _generated_lines:
+        return {}
+    outs = Driver(PID).run([l for l, _ in _generated_lines])
+    by = {}
+    for (_, kind), d in zip(_generated_lines, outs):
+        if d.get("frag") == "ql":
+            by[kind] = by.get(kind, 0) + 1
+    return {"quant_fragment_cases": sum(by.values()), "quant_fragment_by_shape": dict(sorted(by.items())),
+            "quant_family_generated": sum(1 for _, k in _generated_lines if k != "random")}
+
+
 def generate(rng, tier, n):
     out = []
+    for _ in range(max(100, n // 8)):
+        q, kind = gen_quant_family(rng)
+        line = G.sx_query(q)
+        _generated_lines.append((line, kind))
+        out.append(Case(line, ("quant-family", "quant-" + kind, "nsel%d" % len(q["sel"])) + tuple(sorted(set(G.cond_ops(q["cond"])))),
+                        "random", q))
     for _ in range(max(50, n // 10)):
         q = G.gen_subquery_query(rng)
         out.append(Case(G.sx_query(q), ("subquery-operand", "nsel%d" % len(q["sel"])) + tuple(sorted(set(G.cond_ops(q["cond"])))),
@@ -69,7 +227,10 @@ def generate(rng, tier, n):
         tags = ["depth%d" % G.cond_depth(q["cond"]), "nsel%d" % len(q["sel"])] + sorted(set(ops))
         if any(len(d) == 0 for d in q["doms"].values()):
             tags.append("empty-domain")
-        out.append(Case(G.sx_query(q), tuple(tags), "random", q))
+        line = G.sx_query(q)
+        if "exists" in ops or "forall" in ops:
+            _generated_lines.append((line, "random"))
+        out.append(Case(line, tuple(tags), "random", q))
     return out
 
 
